@@ -9,19 +9,24 @@ PROP = dict(
                        "Comdex.C04.modelled_match_quote_exact", "Comdex.C04.modelled_match_base_offset", "Comdex.C04.modelled_match_deficit",
                        "Comdex.C04.d2_offset_witness", "Comdex.C04.pair_escrow_ge_orders_counterexample",
                        "Comdex.C04.coins_conserved", "Comdex.C04.bank_keys_unique", "Comdex.C04.batch_conserves_coins",
-                       "Comdex.C04.batch_dust_exact", "Comdex.C04.batch_reserve_exact", "Comdex.C04.farm_custody_exact", "Comdex.C04.unfarm_newest_first", "Comdex.C04.maturation_exact",
+                       "Comdex.C04.batch_dust_exact", "Comdex.C04.batch_reserve_exact", "Comdex.C04.batch_fee_collector_exact", "Comdex.C04.farm_custody_exact", "Comdex.C04.unfarm_newest_first", "Comdex.C04.maturation_exact",
                        "Comdex.C04.no_mature_entry_after_batch", "Comdex.C04.deposit_refunded_if_pool_disabled",
                        "Comdex.C04.withdraw_refunded_if_pool_disabled", "Comdex.C04.zero_supply_disabled",
-                       "Comdex.C04.poolcoin_supply_only_by_pool_ops"],
+                       "Comdex.C04.poolcoin_supply_only_by_pool_ops", "Comdex.C04.poolcoin_supply_exact",
+                       "Comdex.C04.poolcoin_supply_fixed_without_executed_request", "Comdex.C04.poolcoin_supply_create_and_prune"],
     harness_tests=["TestC04"],
     trusted_base=[KERNEL_TB, HARNESS_TB,
                   "Model/LiqLedger.lean is hand-written from x/liquidity/keeper/{pool,swap,batch,rewards,pair}.go and abci.go; tied by "
                   "replaying every generated message / block hook on the real app (ValidateBasic + MsgServiceRouter handler on a "
                   "CacheContext, real BeginBlocker / EndBlocker) and comparing ok / not-ok and the full projection (all requests, "
                   "orders, MM indexes, farmers, pools, pairs, every tracked balance) after every message and block",
-                  "results of the matching engine (per-order fills, per-pool flows, dust), of amm.Deposit / amm.Withdraw / "
-                  "amm.Create*Pool, the tick-rounded price and the stateless price / tick / denom validations are observed inputs of "
-                  "the model (the theorems quantify over them); the matching engine is the subject of C05, the pool maths of C06",
+                  "results of the matching engine (per-order fills, per-pool flows, dust, match price), of amm.Deposit / amm.Withdraw / "
+                  "amm.Create*Pool, the asset white-list of MsgCreatePair and the coin-denom checks of deposit / withdraw / farm "
+                  "messages are observed inputs of the model (the theorems quantify over them); the matching engine is the subject of "
+                  "C05, the pool maths of C06.  The price limits, tick fitting, MMOrderTicks and denom checks of limit / market / MM "
+                  "orders are computed by the model from the message (round 5)",
+                  "the store migration 1->2 is run by the harness on a store it re-encodes in the legacy/v1 layout (only from states "
+                  "without MM orders / ranged pools, which that layout cannot hold)",
                   "x/bank SendCoins / InputOutputCoins, protobuf (de)serialisation and the KV store are exercised, not modelled; no "
                   "vesting accounts, no unsolicited MsgSend to module-owned addresses (app.go builds the bank keeper without blocked "
                   "addresses, so a plain MsgSend of pool coins to the liquidity module account would make custody exceed the records)"],
@@ -48,7 +53,10 @@ META = dict(
          "C05's modelled matcher, exactly the dropped remainder for D2); no ordinary coin is minted or burnt by any message or "
          "hook, the dust collector and pool reserves move by exactly the named amounts in a batch; the module "
          "account holds exactly the farmed pool coins (queued + active); zero supply implies disabled; the recorded pool-coin supply "
-         "is changed only by pool creation, the app's batch execution and deposit-and-farm / unfarm-and-withdraw on that pool; "
+         "is changed only by pool creation, the app's batch execution and deposit-and-farm / unfarm-and-withdraw on that pool, and in "
+         "every step by exactly the pool coins minted / burnt by the requests of that pool that newly succeeded; the swap-fee collector "
+         "of every pair moves by exactly the fee on the executed portions of the orders that ended in the step; the store migration "
+         "1->2 keeps the invariant; "
          "unfarm takes from the newest queue entries first, maturation moves exactly the mature entries, requests executed "
          "against a disabled pool are refunded in full. The "
          "model is tied to the code by replaying generated histories on the real app and comparing outcome and full state after "
